@@ -55,20 +55,28 @@ func objectIndexedByMarkedKey(expr hclsyntax.Expression, ctxs ...*hcl.EvalContex
 }
 
 // hasMarkedNullNested reports whether v contains, below its top level, a null value that carries marks.
-func hasMarkedNullNested(v cty.Value) bool {
-	found := false
-	_ = cty.Walk(v, func(p cty.Path, pv cty.Value) (bool, error) {
-		// (a marked null at the top counts too: the expression may wrap it in a constructor
-		// whose result is then converted, e.g. `c ? [secret] : list_of_strings`)
-		if pv.IsMarked() {
-			u, _ := pv.Unmark()
-			if u.IsNull() {
-				found = true
-			}
+func hasMarkedNullNested(v cty.Value) bool { return nullUnderMark(v, false) }
+
+// nullUnderMark reports whether v contains a null (v itself included) that carries a
+// mark, either directly or through a container around it: indexing / attribute access
+// transfers the container's marks to the null, and a later conversion of a constructor
+// holding that null drops them (e.g. `c ? [secret.id] : list_of_strings`).
+func nullUnderMark(v cty.Value, marked bool) bool {
+	marked = marked || v.IsMarked()
+	u, _ := v.Unmark()
+	if u.IsNull() {
+		return marked
+	}
+	if !u.IsKnown() || !u.CanIterateElements() {
+		return false
+	}
+	for it := u.ElementIterator(); it.Next(); {
+		_, ev := it.Element()
+		if nullUnderMark(ev, marked) {
+			return true
 		}
-		return true, nil
-	})
-	return found
+	}
+	return false
 }
 
 func unmarkedDeep(v cty.Value) cty.Value {
